@@ -248,4 +248,205 @@ theorem strToUint64N_uint64ToStr (val : Nat) (out : Bytes) (hv : val ≤ u64Max)
         omega
       · intro _; exact hp
 
+/-! ### reference: the `k+1` upper-case hexadecimal digits of `v < 16^(k+1)` -/
+
+def hexDigitsU : Nat → Nat → Bytes
+  | 0, v => [x32Char v]
+  | k + 1, v => x32Char (v / 16 ^ (k + 1)) :: hexDigitsU k (v % 16 ^ (k + 1))
+
+theorem hexDigitsU_length (k v : Nat) : (hexDigitsU k v).length = k + 1 := by
+  induction k generalizing v with
+  | zero => rfl
+  | succ k ih => simp [hexDigitsU, ih]
+
+theorem pow16_pos (k : Nat) : 0 < 16 ^ k := Nat.pow_pos (by decide)
+
+/-- the shift arithmetic of one loop round: the field holds `X < 16^k` in its top `k`
+    nibbles; the round extracts nibble `k-1` and shifts the rest up -/
+theorem x32_round (k X : Nat) (hk1 : 1 ≤ k) (hk8 : k ≤ 8) (_hX : X < 16 ^ k) :
+    (X * 16 ^ (8 - k)) / 2 ^ 28 = X / 16 ^ (k - 1) ∧
+    (X * 16 ^ (8 - k) * 16) % 2 ^ 32 = (X % 16 ^ (k - 1)) * 16 ^ (8 - (k - 1)) := by
+  have h28 : (2 : Nat) ^ 28 = 16 ^ 7 := by decide
+  have h32 : (2 : Nat) ^ 32 = 16 ^ 8 := by decide
+  have ha : (16 : Nat) ^ 7 = 16 ^ (8 - k) * 16 ^ (k - 1) := by
+    rw [← Nat.pow_add]; congr 1; omega
+  have hb : (16 : Nat) ^ 8 = 16 ^ (8 - (k - 1)) * 16 ^ (k - 1) := by
+    rw [← Nat.pow_add]; congr 1; omega
+  have hc : (16 : Nat) ^ (8 - k) * 16 = 16 ^ (8 - (k - 1)) := by
+    rw [← Nat.pow_succ]; congr 1; omega
+  constructor
+  · rw [h28, ha, Nat.mul_comm X, Nat.mul_div_mul_left _ _ (pow16_pos _)]
+  · rw [h32, Nat.mul_assoc, hc, hb, Nat.mul_comm X, Nat.mul_mod_mul_left, Nat.mul_comm]
+
+/-- canonical loop state: `k+1` nibbles of `X` still to print, the top one in `digit` -/
+def x32State (k X : Nat) : X32St := ⟨(X % 16 ^ k) * 16 ^ (8 - k), k, X / 16 ^ k⟩
+
+theorem x32Skip (X : Nat) : ∀ k n (d0 : Nat), 1 ≤ k → k ≤ 8 → k < n → X < 16 ^ k →
+    ∃ j, j < k ∧ (j = 0 ∨ 16 ^ j ≤ X) ∧ X < 16 ^ (j + 1) ∧
+      iter x32SkipStep n ⟨X * 16 ^ (8 - k), k, d0⟩ = .ok (x32State j X) := by
+  intro k
+  induction k with
+  | zero => intro n d0 h1; omega
+  | succ k ih =>
+    intro n d0 h1 h8 hn hX
+    obtain ⟨n', rfl⟩ : ∃ n', n = n' + 1 := ⟨n - 1, by omega⟩
+    obtain ⟨hr1, hr2⟩ := x32_round (k + 1) X (by omega) h8 hX
+    simp only [Nat.add_sub_cancel] at hr1 hr2
+    by_cases hcont : X / 16 ^ k = 0 ∧ k ≠ 0
+    · have hlt : X < 16 ^ k := lt_of_div_eq_zero (pow16_pos _) hcont.1
+      obtain ⟨j, hj, hj1, hj2, hj3⟩ := ih n' 0 (by omega) (by omega) (by omega) hlt
+      refine ⟨j, by omega, hj1, hj2, ?_⟩
+      have hmod : X % 16 ^ k = X := Nat.mod_eq_of_lt hlt
+      simp only [iter, x32SkipStep, Nat.add_sub_cancel, hr1, hr2, hcont.1, hcont.2, ne_eq, not_false_eq_true,
+        and_self, if_true, hmod]
+      exact hj3
+    · refine ⟨k, by omega, ?_, hX, ?_⟩
+      · by_cases hk0 : k = 0
+        · exact Or.inl hk0
+        · right
+          by_cases h : 16 ^ k ≤ X
+          · exact h
+          · exact absurd ⟨Nat.div_eq_of_lt (by omega), hk0⟩ hcont
+      · have : ¬ (X / 16 ^ k = 0 ∧ ¬ k = 0) := hcont
+        simp only [iter, x32SkipStep, Nat.add_sub_cancel, hr1, hr2, ne_eq, this, if_false]
+        rfl
+
+theorem x32Print : ∀ j X w (out : Bytes) n, j ≤ 7 → j < n → X < 16 ^ (j + 1) → w ≤ out.length →
+    ∃ r, iter x32PrintStep n ⟨x32State j X, w, out⟩ = .ok r ∧ r.2.length = out.length ∧
+      if w + j + 1 ≤ out.length then r.1 = w + j + 1 ∧ r.2.take r.1 = out.take w ++ hexDigitsU j X
+      else r.1 = 0 := by
+  intro j
+  induction j with
+  | zero =>
+    intro X w out n _ hn hX hw
+    obtain ⟨n', rfl⟩ : ∃ n', n = n' + 1 := ⟨n - 1, by omega⟩
+    by_cases hlt : w < out.length
+    · refine ⟨(w + 1, out.set w (x32Char (X / 16 ^ 0))), ?_, by simp, ?_⟩
+      · simp [iter, x32PrintStep, x32State, hlt, wr_ok _ hlt]
+      · have : w + 0 + 1 ≤ out.length := by omega
+        simp only [this, if_true, true_and]
+        rw [take_set_succ _ _ _ hlt]; simp [hexDigitsU]
+    · refine ⟨(0, out), ?_, rfl, ?_⟩
+      · simp [iter, x32PrintStep, x32State, hlt]
+      · have : ¬ (w + 0 + 1 ≤ out.length) := by omega
+        simp [this]
+  | succ j ih =>
+    intro X w out n h7 hn hX hw
+    obtain ⟨n', rfl⟩ : ∃ n', n = n' + 1 := ⟨n - 1, by omega⟩
+    by_cases hlt : w < out.length
+    · have hmod : X % 16 ^ (j + 1) < 16 ^ (j + 1) := Nat.mod_lt _ (pow16_pos _)
+      obtain ⟨hr1, hr2⟩ := x32_round (j + 1) (X % 16 ^ (j + 1)) (by omega) (by omega) hmod
+      simp only [Nat.add_sub_cancel] at hr1 hr2
+      obtain ⟨r, hr, hl, hp⟩ := ih (X % 16 ^ (j + 1)) (w + 1) (out.set w (x32Char (X / 16 ^ (j + 1)))) n'
+        (by omega) (by omega) hmod (by simp; omega)
+      refine ⟨r, ?_, by simpa using hl, ?_⟩
+      · simp only [iter, x32PrintStep, x32State, hlt, if_true, wr_ok _ hlt, bind_ok', Nat.add_one_ne_zero, if_false,
+          pure_eq_ok, hr1, hr2, Nat.add_sub_cancel]
+        exact hr
+      · simp only [List.length_set] at hp
+        by_cases hfit : w + (j + 1) + 1 ≤ out.length
+        · have hfit' : w + 1 + j + 1 ≤ out.length := by omega
+          simp only [hfit, hfit', if_true] at hp ⊢
+          refine ⟨by omega, ?_⟩
+          rw [hp.2, take_set_succ _ _ _ hlt]; simp [hexDigitsU]
+        · have hfit' : ¬ (w + 1 + j + 1 ≤ out.length) := by omega
+          simp only [hfit, hfit', if_false] at hp ⊢
+          exact hp
+    · refine ⟨(0, out), ?_, rfl, ?_⟩
+      · simp [iter, x32PrintStep, x32State, hlt]
+      · have : ¬ (w + (j + 1) + 1 ≤ out.length) := by omega
+        simp [this]
+
+/-- `MHD_uint32_to_strx`: prints the canonical upper-case hexadecimal representation
+    (`k+1` digits, `16^k ≤ val < 16^(k+1)`, or one digit for `val < 16`) iff it fits,
+    returns 0 iff it does not. -/
+theorem uint32ToStrx_spec (val : Nat) (out : Bytes) (hv : val < 2 ^ 32) :
+    ∃ k, (k = 0 ∨ 16 ^ k ≤ val) ∧ val < 16 ^ (k + 1) ∧
+      Wrote (uint32ToStrx val out) out (if k + 1 ≤ out.length then some (hexDigitsU k val) else none) := by
+  have hv' : val < 16 ^ 8 := by have : (2 : Nat) ^ 32 = 16 ^ 8 := by decide
+                                omega
+  obtain ⟨k, hk, hk1, hk2, hk3⟩ := x32Skip val 8 9 0 (by omega) (by omega) (by omega) hv'
+  obtain ⟨r, hr, hl, hp⟩ := x32Print k val 0 out 9 (by omega) (by omega) hk2 (by simp)
+  refine ⟨k, hk1, hk2, r.1, r.2, ?_, hl, ?_⟩
+  · have h0 : (⟨val, 8, 0⟩ : X32St) = ⟨val * 16 ^ (8 - 8), 8, 0⟩ := by simp
+    simp only [uint32ToStrx, h0, hk3, bind_ok', hr]
+  · by_cases hfit : k + 1 ≤ out.length
+    · have hfit' : 0 + k + 1 ≤ out.length := by omega
+      simp only [hfit, hfit', if_true] at hp ⊢
+      refine ⟨by rw [hexDigitsU_length]; omega, ?_⟩
+      simpa using hp.2
+    · have hfit' : ¬ (0 + k + 1 ≤ out.length) := by omega
+      simp only [hfit, hfit', if_false] at hp ⊢
+      exact hp
+
+
+/-! ### printing then parsing, hexadecimal -/
+
+theorem xchar_table : ∀ d : Fin 16, isXDigit (x32Char d.val) = true ∧ hexDigitVal (x32Char d.val) = d.val := by
+  decide
+
+theorem div_lt_sixteen {v k : Nat} (h : v < 16 ^ (k + 1)) : v / 16 ^ k < 16 := by
+  rw [Nat.div_lt_iff_lt_mul (pow16_pos k)]
+  rw [Nat.pow_succ] at h; omega
+
+theorem hexDigitsU_foldl (k v acc : Nat) (hv : v < 16 ^ (k + 1)) :
+    (hexDigitsU k v).foldl (fun a d => a * 16 + hexDigitVal d) acc = acc * 16 ^ (k + 1) + v := by
+  induction k generalizing v acc with
+  | zero =>
+    have := (xchar_table ⟨v, by simpa using hv⟩).2
+    simp only at this
+    simp only [hexDigitsU, List.foldl_cons, List.foldl_nil, this]
+  | succ k ih =>
+    have hd : v / 16 ^ (k + 1) < 16 := div_lt_sixteen hv
+    have := (xchar_table ⟨v / 16 ^ (k + 1), hd⟩).2
+    simp only at this
+    simp only [hexDigitsU, List.foldl_cons, this]
+    rw [ih _ _ (Nat.mod_lt _ (pow16_pos _))]
+    have h1 := Nat.div_add_mod v (16 ^ (k + 1))
+    rw [Nat.pow_succ 16 (k + 1), Nat.add_mul, Nat.mul_assoc]
+    have : 16 * 16 ^ (k + 1) = 16 ^ (k + 1) * 16 := Nat.mul_comm _ _
+    rw [Nat.mul_comm (v / 16 ^ (k + 1)) (16 ^ (k + 1)), ← this] at *
+    rw [Nat.mul_comm 16 (16 ^ (k + 1))] at *
+    omega
+
+theorem hexDigitsU_all_xdigit (k v : Nat) (hv : v < 16 ^ (k + 1)) : ∀ c ∈ hexDigitsU k v, isXDigit c = true := by
+  induction k generalizing v with
+  | zero =>
+    intro c hc
+    have := (xchar_table ⟨v, by simpa using hv⟩).1
+    simp only [hexDigitsU, List.mem_singleton] at hc
+    subst hc; exact this
+  | succ k ih =>
+    intro c hc
+    simp only [hexDigitsU, List.mem_cons] at hc
+    rcases hc with hc | hc
+    · subst hc; exact (xchar_table ⟨v / 16 ^ (k + 1), div_lt_sixteen hv⟩).1
+    · exact ih _ (Nat.mod_lt _ (pow16_pos _)) c hc
+
+/-- `MHD_strx_to_uint32_n_ ∘ MHD_uint32_to_strx = id` -/
+theorem strxToUint32N_uint32ToStrx (val : Nat) (out : Bytes) (hv : val < 2 ^ 32) :
+    ∃ n o, uint32ToStrx val out = .ok (n, o) ∧ (n ≠ 0 → strxToUint32N (o.take n) = .ok (n, val)) := by
+  obtain ⟨k, _, hk2, n, o, hr, _, hp⟩ := uint32ToStrx_spec val out hv
+  refine ⟨n, o, hr, ?_⟩
+  intro hn
+  by_cases hfit : k + 1 ≤ out.length
+  · simp only [hfit, if_true] at hp
+    rw [hp.2]
+    show strxToUintN u32Max (hexDigitsU k val) = _
+    rw [strxToUintN_spec]
+    unfold parseHex xdigitRun
+    rw [takeWhile_all _ _ (hexDigitsU_all_xdigit k val hk2)]
+    have hval : hexVal (hexDigitsU k val) = val := by
+      have := hexDigitsU_foldl k val 0 hk2
+      simpa [hexVal, valB] using this
+    rw [hval]
+    unfold parseResult
+    have hne : hexDigitsU k val ≠ [] := by
+      intro h; have := hexDigitsU_length k val; rw [h] at this; simp at this
+    have hmax : ¬ val > u32Max := by
+      have : u32Max = 2 ^ 32 - 1 := by decide
+      omega
+    simp [hne, hmax, hexDigitsU_length, hp.1]
+  · simp only [hfit, if_false] at hp; exact absurd hp hn
+
 end Mhd.Str
